@@ -16,13 +16,13 @@ def run(res):
                      "(about scripts over the server model of Server/Inst.v; the real compliance suite is covered by the harness only)",
         trusted=["Coq 8.16.1 kernel + vm_compute",
                  "hand-written models Server/Model.v, Server/Inst.v, Rib/Model.v (tied to /repo by the C01-C09 correspondences) and Tools/Compliance.v "
-                 "(script DSL, suite counter, fault wrappers, fourteen hand-transcribed compliance tests: only the compared verdicts tie them to the Go tests)",
+                 "(script DSL, suite counter, fault wrappers, sixteen hand-transcribed compliance tests: only the compared verdicts tie them to the Go tests)",
                  "harness vh-c19: the real compliance.TestSuite over bufconn against long-lived *server.Server instances (one allowing, one disallowing forward "
                  "references), own testing.TB (Fatal/Skip = runtime.Goexit in the test goroutine), per-test watchdog (servers stopped, test counted as failed), "
                  "wire-level monitor (Get ALL + VerifSessions + VerifPendingIDs after every test; election ids recorded by a wrapping GRIBIServer), "
                  "fault wrappers around *server.Server (faults.go)"],
         assumptions=["PARTIAL: Coq proves reset / start-state and counter irrelevance / order independence for scripts that satisfy Contract, and a finite verdict table "
-                     "for 14 transcribed tests x 13 faulty servers (7 requirements, 6 of them broken in a second per-recipient / per-kind / per-table / per-scope way); that each Go compliance test is such a script is not proved - the harness samples permutations, "
+                     "for 16 transcribed tests x 15 faulty servers (7 requirements, most of them broken in more than one way: per recipient / per kind of operation / per table / per scope); that each Go compliance test is such a script is not proved - the harness samples permutations, "
                      "election bases and VRF names on the real suite and checks the contract's effects on the wire",
                      "the fault catalogue is a finite list of single-requirement wrappers (model and Go), not 'every faulty server'; for each fault the designated tests are named in harness/cmd/vh-c19/c19.go",
                      "network-instance names are opaque codes in the model (renaming them is the identity on the model); the reference server's default instance name is fixed "
